@@ -25,6 +25,7 @@ type Ctx struct {
 	count  int
 	Tmp    string
 	Corpus string
+	Prop   string // property the check is deciding (streams shared by several properties may specialise)
 }
 
 func (c *Ctx) Emit(in J, impl J, tags ...string) {
@@ -59,6 +60,7 @@ func main() {
 	tier := fs.String("tier", "quick", "quick|thorough")
 	tmp := fs.String("tmp", "", "scratch directory (must exist)")
 	corpus := fs.String("corpus", "", "corpus directory")
+	prop := fs.String("prop", "", "property id")
 	fs.Parse(os.Args[2:])
 	f, ok := streams[name]
 	if !ok {
@@ -82,7 +84,7 @@ func main() {
 		defer os.RemoveAll(d)
 		*tmp = d
 	}
-	c := &Ctx{R: rng.New(*seed), N: *n, Tier: *tier, W: bufio.NewWriter(w), Tmp: *tmp, Corpus: *corpus}
+	c := &Ctx{R: rng.New(*seed), N: *n, Tier: *tier, W: bufio.NewWriter(w), Tmp: *tmp, Corpus: *corpus, Prop: *prop}
 	f(c)
 	c.W.Flush()
 }
